@@ -328,12 +328,37 @@ func (c *Ctx) checkErrorsPropagate(rule string, fns []*ssa.Function) {
 // isEOFClassification: the success return is control dependent on
 // errors.Is(err, io.EOF)-style tests (orderly connection close).
 func (c *Ctx) isEOFClassification(in ssa.Instruction) bool {
-	return hasFact(in.Block(), true, func(v ssa.Value) bool {
+	var eofAtom func(v ssa.Value) bool
+	eofAtom = func(v ssa.Value) bool {
 		call, ok := v.(*ssa.Call)
 		if !ok {
 			return false
 		}
 		cc := call.Common()
+		// a predicate of the module that is true only for such errors: `func isConnClosedErr(err error) bool`
+		if g := cc.StaticCallee(); g != nil && an.InModule(g) && len(g.Blocks) > 0 && g.Signature.Results().Len() == 1 && len(cc.Args) == 1 {
+			all, n := true, 0
+			for _, ret := range an.Returns(g) {
+				res := an.ReturnResults(ret)[0]
+				if b, isC := an.BoolConst(res); isC {
+					if b && !hasFact(ret.Block(), true, eofAtom) {
+						all = false
+					}
+					if b {
+						n++
+					}
+					continue
+				}
+				inner, neg := an.Not(res)
+				if neg || !eofAtom(inner) {
+					all = false
+				}
+				n++
+			}
+			if all && n > 0 {
+				return true
+			}
+		}
 		if an.CalleeIs(cc, "errors", "Is") {
 			if g, ok := an.Strip(cc.Args[1]).(*ssa.UnOp); ok && g.Op == token.MUL {
 				if gl, ok := g.X.(*ssa.Global); ok && gl.Pkg.Pkg.Path() == "io" && (gl.Name() == "EOF" || gl.Name() == "ErrUnexpectedEOF") {
@@ -347,7 +372,8 @@ func (c *Ctx) isEOFClassification(in ssa.Instruction) bool {
 			}
 		}
 		return false
-	}) || c.eofPhi(in)
+	}
+	return hasFact(in.Block(), true, eofAtom) || c.eofPhi(in)
 }
 
 // eofPhi handles `a || b || c` lowered to a block with several predecessors.
